@@ -98,3 +98,13 @@ claim('C04', 'other',
       'are chemically right is NOT decided.',
       'trusts: the aromatic carbon table (2 aromatic bonds use 3 valence units, 3 use 4)',
       'DESIGN.md 4/C04')
+claim('C02', 'other',
+      'writer<->reader code-book agreement by literal-table extraction, regex-language enumeration and decision-ladder '
+      'extraction; attribute read sets of the atom formatter; chirality-mark polarity and first-atom predicate agreement',
+      'decides: every charge/bond/hydrogen/closure/symbol token the writer can emit is read back to the same value; a single '
+      'bond between aromatic atoms is written explicitly; the atom token carries element, isotope, charge, hydrogens, '
+      'stereo, radical (CX block always appended); @ <-> True on both sides and both reverse it exactly for atoms without '
+      'a preceding atom; the sign-translation tables/ladders both sides use are consistent. Correctness of cis/trans '
+      'direction-mark propagation for arbitrary traversals is NOT decided.',
+      'trusts: atom maps <= 9999 (reader regex); organic subset elements cannot be aromatic unless b,c,n,o,p,s',
+      'DESIGN.md 4/C02')
